@@ -81,6 +81,8 @@ def oracle_moments(rng, d):
     with warnings.catch_warnings(), sagecorr.adversarial_globals(d['settings']):
         warnings.simplefilter('ignore')
         cd2 = con.conic_form()
+        if sum(len(blk[3]) for blk in cd2) == 0:
+            return None          # a constraint without rows (every AGE cone trivial): there is no compiled system to compare (compiling it alone raises)
         A, b, K, _, _, svid2col = cl.compile_constrained_system([con])
     A = np.asarray(A.todense(), dtype=float)
     E = np.zeros(A.shape)
